@@ -315,11 +315,15 @@ Section Poly.
     | a :: ((b :: _) as r) => (a, b) :: pairs r
     | _ => []
     end.
-  (* VertexToLine(vertex, true) *)
+  (* VertexToLine(vertex, true): `if vertex[0] != vertex[n-1]` - the closing edge is added unless the
+     last vertex IS the first one (Go's == on the two coordinates).  Before the repair (sdfx bf5538d)
+     the test was vertex[0].Equals(vertex[n-1], tolerance): a last vertex within 1e-9 of the first
+     left the outline open, with wrong signs level with the gap at any distance. *)
+  Definition v2eqb (a b : V2) : bool := (vx a =? vx b) && (vy a =? vy b).
   Definition vertex_to_line (vs : list V2) : list Seg :=
     match vs with
     | [] | [_] => []
-    | v0 :: _ => pairs (if v2equals v0 (last vs v0) tolerance then vs else vs ++ [v0])
+    | v0 :: _ => pairs (if v2eqb v0 (last vs v0) then vs else vs ++ [v0])
     end.
 
   (* ------------------------------------------------------------ specification (sqrt-free) *)
@@ -346,7 +350,7 @@ Section Poly.
     fold_left (fun d l => omin O d (segdist2_spec l p)) ls (omaxf O).
 
   (* ------------------------------------------------------------ certificate *)
-  Definition v2eqb (a b : V2) : bool := (vx a =? vx b) && (vy a =? vy b).
+  (* v2eqb: defined above (VertexToLine) *)
   Definition seg_eqb (a b : Seg) : bool := v2eqb (fst a) (fst b) && v2eqb (snd a) (snd b).
 
   (* c lies on the line through a and b, up to `tol` (distance, relative to nothing: absolute);
